@@ -27,7 +27,7 @@ def header_writes(b):
 def r1(cx):
     f = cx.f
     n = 0
-    for b in f.bodies.values():
+    for b in f.scan_bodies():
         if not b.file.endswith("bplustree/tree.rs") or b.kind not in ("method", "fn"):
             continue
         if b.name in ("with_file", "deserialize", "serialize"):
@@ -49,7 +49,7 @@ def r1(cx):
                      "`%s` changes header.%s and can return Ok without write_header(): after close + reopen the tree uses the stale %s (lost keys / leaked pages)" % (b.id, fld, fld))
     cx.floor("header field mutations", n, 7)
     # only allocate_page grows total_pages
-    for b in f.bodies.values():
+    for b in f.scan_bodies():
         for i, fld, line in header_writes(b):
             if fld == "total_pages" and b.name not in ("with_file",):
                 cx.check(b.name == "allocate_page", "total_pages is only changed by allocate_page", "who:total_pages|%s" % b.id, "%s:%d" % (b.file, line),
@@ -88,7 +88,7 @@ def r1(cx):
 def r2(cx):
     f = cx.f
     n = 0
-    for b in f.bodies.values():
+    for b in f.scan_bodies():
         if not b.file.endswith("bplustree/tree.rs"):
             continue
         for c in b.calls:
